@@ -64,15 +64,16 @@ THEOREMS = [
     "FaxVerif.C18.float_roundtrip",
     "FaxVerif.C18.float_const_ok",
     "FaxVerif.C18.nonfinite_rejected",
-    "FaxVerif.C18.nonneg_not_glued",
+    "FaxVerif.C18.int_not_glued",
+    "FaxVerif.C18.float_not_glued",
     "FaxVerif.C18.str_not_glued",
-    "FaxVerif.C18.sub_negative_counterexample",
+    "FaxVerif.C18.negative_after_minus",
     "FaxVerif.C18.const_ok_partial",
     "FaxVerif.C18.const_ok_counterexample",
     "FaxVerif.C18.storable_literal",
     "FaxVerif.C18.carrier_stored_ok",
     "FaxVerif.C18.stored_counterexamples",
-    "FaxVerif.C18.ifexp_str_counterexample",
+    "FaxVerif.C18.ifexp_str_rejected",
     "FaxVerif.C18.bank_roundtrip",
     "FaxVerif.C18.bank_roundtrip_trigraphs",
     "FaxVerif.C18.names_roundtrip",
@@ -88,7 +89,7 @@ RULE = (
     "constant) through apply_ast_transformations + write_cpp_files. book / names streams: the real booking emitters and the "
     "whole pipeline on random tree names, column names and dict keys over all characters (quotes, backslashes, LF/CR, '?' "
     "included; column names sent through the pipeline without LF/CR). stored stream: per-object Select whose value is one of its "
-    "numeric constants — a bare constant or conditional expressions nested up to depth 3 (every ordered pair of kinds int / "
+    "constants — a bare constant (numeric or string) or conditional expressions nested up to depth 3 (a string arm, rare, must be refused with ValueError) (every ordered pair of kinds int / "
     "fractional float / integral float / bool in the two arms first, then random trees; tests drawn from 12 comparisons on "
     "pt()/eta() combined with and/or/not; negative numbers as one Constant node or as the parser's UnaryOp; one column, tuple or "
     "dict; 25% through qastle), judged by StoredOk on the conversion chain read off the generated loop body and by running the "
@@ -698,12 +699,7 @@ def position_ok_for(pos: str, v: Any) -> bool:
     if kinds == "all":
         return t in (str, int, float, bool)
     if kinds == "num":
-        if t not in (int, float):
-            return False
-        if pos == "sub_right":
-            # defect exclusion (listed finding): a negative constant directly after the minus sign
-            return v >= 0 and not (t is float and math.copysign(1.0, v) < 0)
-        return True
+        return t in (int, float)  # (sub_right: negative constants too — in parentheses since 212716c)
     if kinds == "numbool":
         return t in (int, float, bool)
     if kinds == "str":
@@ -1633,12 +1629,16 @@ def gen_stored_num(rng) -> Any:
     return rng.random() < 0.5
 
 
-def gen_carrier(rng, depth: int) -> Dict[str, Any]:
+def gen_carrier(rng, depth: int, top: bool = True) -> Dict[str, Any]:
     if depth <= 0 or rng.random() < (0.0 if depth >= 3 else 0.35):
+        # a string: fine as a bare column, refused (ValueError) as an arm of a conditional; kept rare there so that
+        # refused queries stay a small part of the stream
+        if rng.random() < (0.25 if top else 0.04):
+            return {"c": gen_str(rng, allow_nul=False)[:12], "form": "node"}
         v = gen_stored_num(rng)
         neg = type(v) in (int, float) and (v < 0 or (type(v) is float and math.copysign(1.0, v) < 0)) and v != -(2**31)
         return {"c": v, "form": "unary" if neg and rng.random() < 0.5 else "node"}
-    return {"ite": [gen_test(rng), gen_carrier(rng, depth - 1), gen_carrier(rng, depth - 1)]}
+    return {"ite": [gen_test(rng), gen_carrier(rng, depth - 1, False), gen_carrier(rng, depth - 1, False)]}
 
 
 def carrier_consts(k: Dict[str, Any]) -> List[Any]:
@@ -1813,12 +1813,14 @@ def literal_paths(body: List[str], cols: Dict[str, str]) -> Optional[List[Dict[s
     """def-use chains of the numeric literals assigned in the body, in text order: for each the literal's text, the
     types it is converted to (written casts and declared types of the variables, the column last) and the column.
     None when the body has a form this reader does not know."""
-    types = dict(cols)
+    norm = lambda t: "string" if t.replace(" ", "") == "std::string" else t
+    types = {k_: norm(t_) for k_, t_ in cols.items()}
+    cols = types.copy()
     assigns: List[Tuple[str, List[str], bool, str]] = []
     for l in body:
         m = re.match(r"^([A-Za-z_][\w:<> ]*?) (\w+);$", l)
         if m and "=" not in l and m.group(1) not in ("return", "else"):
-            types[m.group(2)] = m.group(1)
+            types[m.group(2)] = norm(m.group(1))
             continue
         m = re.match(r"^(\w+) = (.*);$", l, re.S)
         if m:
@@ -1848,6 +1850,8 @@ def literal_paths(body: List[str], cols: Dict[str, str]) -> Optional[List[Dict[s
 
 STORED_MOCK_HEAD = r"""#include <cstdio>
 #include <cstring>
+#include <string>
+using std::string;
 static int IDX = 0;
 static void hx(const void* p, size_t n){ const unsigned char* b=(const unsigned char*)p; for(size_t i=0;i<n;i++) printf("%02x", b[i]); printf("\n"); }
 static void show(int v){ printf("%d N int ", IDX); hx(&v, sizeof v); }
@@ -1858,6 +1862,7 @@ static void show(long long v){ printf("%d N long long ", IDX); hx(&v, sizeof v);
 static void show(float v){ printf("%d N float ", IDX); hx(&v, sizeof v); }
 static void show(double v){ printf("%d N double ", IDX); hx(&v, sizeof v); }
 static void show(bool v){ printf("%d N bool ", IDX); hx(&v, sizeof v); }
+static void show(const std::string& s){ printf("%d S string ", IDX); hx(s.data(), s.size()); }
 struct J { double _pt, _eta; double pt() const { return _pt; } double eta() const { return _eta; } };
 struct MockTree { void Fill(){} };
 static MockTree g_tree; static MockTree* myTree = &g_tree; static MockTree* tree(const char*){ return &g_tree; }
@@ -1884,7 +1889,7 @@ def run_stored_echo(blocks: List[str]) -> Dict[str, Any]:
         r = subprocess.run(["./s"], cwd=d, capture_output=True, text=True, timeout=120)
         res: Dict[int, List[Any]] = {}
         for ln in r.stdout.split("\n"):
-            m = re.match(r"^(\d+) N ([a-z ]+) ([0-9a-f]*)$", ln)
+            m = re.match(r"^(\d+) [NS] ([a-z ]+) ([0-9a-f]*)$", ln)
             if m:
                 res.setdefault(int(m.group(1)), []).append((m.group(2), bytes.fromhex(m.group(3))))
         return {"out": res}
@@ -1893,6 +1898,8 @@ def run_stored_echo(blocks: List[str]) -> Dict[str, Any]:
 
 
 def shown_number(ty: str, raw: bytes) -> Any:
+    if ty == "string":
+        return raw.decode("utf-8", "replace")
     if ty == "double":
         return struct.unpack("<d", raw)[0]
     if ty == "float":
@@ -1906,6 +1913,8 @@ def same_number(want: Any, got: Any) -> bool:
     """numerically the same (1 and 1.0 and True; the sign of a floating zero counts when both are floating)"""
     from fractions import Fraction
 
+    if isinstance(want, str) or isinstance(got, str):
+        return isinstance(want, str) and isinstance(got, str) and want == got
     if isinstance(got, float) and (got != got or got in (math.inf, -math.inf)):
         return False
     if Fraction(want) != Fraction(got):
@@ -1941,8 +1950,7 @@ def stored_stream(ctx, cases: List[Dict[str, Any]], workers: int = 4):
         st = {"c": c, "case": case, "key": key, "consts": consts, "r": r}
         staged.append(st)
         if "err" in r:
-            ctx.count("stored:impl-error:" + r["err"])
-            ctx.violation(key=key, what=f"a query selecting between numeric constants was refused on {b}: {r['err']}: {r.get('msg')} — {src} with {names!r}", case=case, observed=r, how="apply_ast_transformations + write_cpp_files on the query of `case`")
+            ctx.count("stored:impl-refused:" + r["err"])  # judged below, against the model's `accepted`
             continue
         lb = loop_body(r["files"][BACKENDS[b]["main"]])
         cols = column_decls(b, r["files"])
@@ -1963,11 +1971,11 @@ def stored_stream(ctx, cases: List[Dict[str, Any]], workers: int = 4):
     # --- the Lean side: the model's conversion chains, and the Spec on the chains read off the generated text
     reqs: List[Dict[str, Any]] = []
     for st in staged:
-        if "body" not in st:
+        if "body" not in st and "err" not in st["r"]:
             continue
         st["i"] = len(reqs)
         reqs += [{"op": "carrier", "k": carrier_lean(k)} for k in st["c"]["ks"]]
-        ps = st["paths"]
+        ps = st.get("paths")
         if ps is not None and len(ps) == len(st["consts"]):
             st["j"] = len(reqs)
             reqs += [{"op": "stored", "c": const_json(v), "text": cp(p_["text"]), "chain": p_["chain"]} for v, p_ in zip(st["consts"], ps)]
@@ -1980,6 +1988,18 @@ def stored_stream(ctx, cases: List[Dict[str, Any]], workers: int = 4):
         if any("bad" in a for a in ma):
             continue
         model_chains = [ch for a in ma for ch in a["paths"]]
+        accepted = all(a.get("accepted", True) for a in ma)
+        ctx.count("stored:model:" + ("accepted" if accepted else "refused"))
+        r = st["r"]
+        if "err" in r:
+            if accepted:
+                ctx.violation(key=st["key"], what=f"a query whose value is one of its constants, each of which has a C++ literal that fits where it goes, was refused on {b}: {r['err']}: {r.get('msg')} — {case['query']} with {case['constants']!r}", case=case, observed=r, how="apply_ast_transformations + write_cpp_files on the query of `case`")
+            elif r["err"] != "ValueError":
+                ctx.disagreement("stored-refusal", case, "ValueError (a string as the value of a conditional expression)", r["err"])
+            continue
+        if not accepted:
+            # a string arm of a conditional was let through: what is emitted for it is judged below (StoredOk, g++)
+            ctx.disagreement("stored-acceptance", case, "refused: a string as the value of a conditional expression cannot be stored in its result variable", "accepted")
         if "j" not in st:
             ctx.disagreement("stored-shape", case, {"literal assignments": len(st["consts"]), "chains": model_chains}, st["paths"])
             continue
@@ -2356,8 +2376,8 @@ def run(ctx):
     ctx.extra_cov["exhaustive"] = False
     ctx.extra_cov["exhaustive_part"] = "as_cpp_string_literal on every single Unicode scalar value (1,112,064 characters) when regenerating the escape table; the booking/fill emitters of all three backends on sentinel names"
     ctx.extra_cov["populations"] = {
-        "inside_theorem_hypotheses": "every generated case: strings (all, compiled under both dialects), ints in the 32-bit range, finite floats, bools, refusals, names (all), non-negative operands after a minus",
-        "outside (defect exclusions)": "exercised only through the listed known findings: ints outside 32 bit, a negative constant directly after '-', NUL through const char*, a string in an arm of a conditional expression",
+        "inside_theorem_hypotheses": "every generated case: strings (all, compiled under both dialects), ints in the 32-bit range, finite floats, bools, refusals, names (all), operands of either sign after a minus, strings as bare columns and as (refused) arms of conditionals",
+        "outside (defect exclusions)": "exercised only through the listed known findings: ints outside 32 bit, NUL through const char*",
     }
 
 
@@ -2476,8 +2496,8 @@ LEVEL_TEXT = (
     "bools, refusals of inf/nan and unsupported kinds; bank names in any surrounding text; ALL tree/branch names in the "
     "regenerated booking lines of all three backends; every numeric constant that reaches a column through conditional expressions "
     "of any depth keeps its value through the conversions on the way (carrier_stored_ok). Where the code violates the property the negation is proved on a "
-    "literal (int 3000000000, 2^64, '-5' after a minus, NUL through const char*, a string arm of a conditional) and replayed on the real code; repaired "
-    "defects (unescaped strings and names, inf/nan, trigraphs) are replayed on every run as regressions. "
+    "literal (int 3000000000, 2^64, NUL through const char*) and replayed on the real code; repaired "
+    "defects (unescaped strings and names, inf/nan, trigraphs, a negative constant directly after '-', a string arm of a conditional expression) are replayed on every run as regressions. "
     "The model is tied to the code on every run by regenerated tables, by differential execution on thousands of constants "
     "through the real visitors and the real pipeline of all three backends, and the emitted literals are compiled with g++ "
     "and compared bit for bit."
@@ -2486,7 +2506,7 @@ LEVEL_NOTE = (
     "Theorem: all strings (both lexing dialects) / all finite repr texts / all ints in [-2^31, 2^31) / all tree, branch and bank names. "
     "Sampled only: that the hand model equals the Python (differential execution), that repr(x) rounds to x (exact check per "
     "sample), that the Lean lexer equals g++'s (echo program). Excluded by explicit hypotheses and listed as findings: ints "
-    "outside 32 bit, a negative constant node directly after '-', NUL through const char*, string arms of a conditional expression. "
+    "outside 32 bit, NUL through const char*. "
     "Stored constants: the theorem is about the model's conversion chains; that the generated code has these chains is sampled (chain read off the loop body + g++ run)."
 )
 TECHNIQUE = "Lean 4 theorems over a hand model and a Lean lexer of C++ literals + tables regenerated from the source + correspondence check against visit_Constant / the pipeline of all three backends + g++ echo of the emitted literals"
